@@ -5,7 +5,7 @@
 (* experimental_execute_incrementally can observe.                             *)
 (*                                                                             *)
 (* record: [initial, subsequent: Seq(payload), parents: [label -> enclosing    *)
-(*          label or ""], ref: value, refclean: BOOLEAN, complete: BOOLEAN,    *)
+(*          label or ""], ref, refnf: value, refclean: BOOLEAN, complete: BOOLEAN, *)
 (*          strict: BOOLEAN]                                                    *)
 (* payload: [data, pending: Seq([id, path, label]),                            *)
 (*           incremental: Seq([k: "d"|"s", id, sub, data, items, errs]),       *)
@@ -106,7 +106,8 @@ DoIncremental(st, incs) ==
                     ELSE DoIncremental([st1 EXCEPT !.data = UpdateAt(@, target, [cur EXCEPT !.kv = MergeKv(@, e.data.kv)]),
                                                    !.dup = @ \/ (KvKeys(cur.kv) \cap KvKeys(e.data.kv) # {})], Tail(incs))
                ELSE IF cur.t # "l" THEN DoIncremental(Viol(st1, "D3-stream-target-not-a-list"), Tail(incs))
-                    ELSE DoIncremental([st1 EXCEPT !.data = UpdateAt(@, target, [cur EXCEPT !.v = @ \o e.items])], Tail(incs))
+                    ELSE DoIncremental([st1 EXCEPT !.data = UpdateAt(@, target, [cur EXCEPT !.v = @ \o e.items]),
+                                                   !.spaths = @ \cup {target}], Tail(incs))
 
 RECURSIVE DoCompleted(_, _)
 DoCompleted(st, cs) ==
@@ -135,15 +136,25 @@ RECURSIVE Run(_, _, _)
 Run(st, ps, parents) == IF ps = <<>> THEN st ELSE Run(Step(st, Head(ps), parents), Tail(ps), parents)
 
 Final(tr) ==
-  LET st0 == [open |-> {}, ever |-> {}, paths |-> <<>>, labels |-> <<>>, failed |-> {}, errs |-> {}, dup |-> FALSE,
+  LET st0 == [open |-> {}, ever |-> {}, paths |-> <<>>, labels |-> <<>>, failed |-> {}, errs |-> {}, dup |-> FALSE, spaths |-> {},
               data |-> tr.initial.data, ended |-> FALSE, bad |-> "ok"]
   IN Run(st0, <<tr.initial>> \o tr.subsequent, tr.parents)
+
+\* D6: stream items arrive in list order without gaps or repeats - the list assembled at a path that received
+\* stream items is, item by item, a prefix of the list the source produces (tr.refnf: the non-propagating reference
+\* computed with source failures switched off; an item may be nulled by an error at or below it, and fields of
+\* fragments deferred inside an item may still be missing)
+StreamsInOrder(tr, fin) ==
+  \A p \in fin.spaths :
+     LET a == GetAt(fin.data, p) rn == GetAt(tr.refnf, p) IN
+     rn.t = "l" => a.t = "l" /\ Withheld(a, rn, p, {p}, fin.errs) = "ok"
 
 \* C05 verdict for one recorded run
 ProtocolClause(tr) ==
   LET fin == Final(tr) IN
   IF tr.initial.incremental # <<>> \/ tr.initial.completed # <<>> THEN "D2-initial-payload-carries-incremental"
   ELSE IF fin.bad # "ok" THEN fin.bad
+  ELSE IF ~StreamsInOrder(tr, fin) THEN "D6-stream-items-not-a-prefix-of-the-source-list"
   ELSE IF tr.complete /\ ~fin.ended THEN "D7-stream-ended-without-hasNext-false"
   \* nothing can happen any more (every external operation completed, a pull outstanding) yet the last payload never came
   ELSE IF tr.stalled /\ ~fin.ended THEN "D4-delivery-stalled-with-pending-ids"
